@@ -111,7 +111,7 @@ func VerifC45Model() {
 	maxOps := vParam("maxops", 4)
 	keys := vParam("keys", 4)
 
-	capacity := vRange(0, maxCap)
+	capacity := verifRange(0, maxCap)
 	withCallback := vChoose(2) == 0
 	var log []verifKV
 	var cb func(k, v uint8)
@@ -123,7 +123,7 @@ func VerifC45Model() {
 	vAssert(c.Len() == 0, "New: empty")
 	verifC45Compare(c, m, log, withCallback)
 
-	nops := vRange(0, maxOps)
+	nops := verifRange(0, maxOps)
 	for step := 0; step < nops; step++ {
 		k := vU8()
 		vAssume(int(k) < keys)
@@ -165,4 +165,13 @@ func VerifC45Model() {
 		m.get(snapshot[i].k)
 	}
 	verifC45Compare(c, m, log, withCallback)
+}
+
+// verifRange is vRange that does not consume a choice for a one-value range
+// (the engine records none there, the native replay runtime would read one).
+func verifRange(lo, hi int) int {
+	if hi <= lo {
+		return lo
+	}
+	return vRange(lo, hi)
 }
